@@ -81,7 +81,7 @@ def h_hiref(ctx, cfg):
 
 def _hi_configs(tier):
     out = []
-    for c in crops(tier):
+    for c in (["Maize", "Wheat", "Potato"] if tier == "quick" else crops(tier)):
         for phase in ("flowering", "late"):
             for frac in ((0.5, 1.0) if tier == "quick" else (0.05, 0.3, 0.6, 0.9, 1.0)):
                 for fpol in ("one", "sym"):
@@ -213,7 +213,7 @@ def _cc_configs(tier):
 
 
 @harness("canopy_cover", modules=["aquacrop.solution.canopy_cover", "aquacrop.solution.cc_development", "aquacrop.solution.cc_required_time",
-                                  "aquacrop.solution.adjust_CCx", "aquacrop.solution.update_CCx_CDC"], props=["C05", "C04", "C12", "C16"],
+                                  "aquacrop.solution.adjust_CCx", "aquacrop.solution.update_CCx_CDC"], props=["C05", "C12"],
          configs=_cc_configs, abstract_nl=True, timeout_ms=10000, goals=["canopy-grows", "canopy-declines"])
 def h_canopy(ctx, cfg):
     crop = season_crop(cfg["crop"])
